@@ -1,5 +1,6 @@
 """C14 - onions deliver exactly each hop's instructions; tampering is rejected; failures name the right hop (structural part)."""
 from engine import *
+import re
 import provenance
 import tlv, tlvloop
 
@@ -470,6 +471,56 @@ def r14k(F):
 	out.append(Result('14.k', ok2, ('ok:' if ok2 else 'order:') + 'incoming-secret-layer-outermost', 'claim_payment_internal: the layer made with incoming_packet_shared_secret wraps %s (expected: the possibly present phantom layer, i.e. it is applied last)' % [expr_str(c[2])[:80] for c in inc], len(inc), where=None if ok2 else F.where(inc[0][0], inc[0][1])))
 	return out
 
+def r14l(F):
+	"""attribution data (hold times on success, HMAC chain on failure) is verified per hop at position = (number of attributable hops) -
+	hop index - 1, the number of attributable hops being min(path length, MAX_HOPS): the two decoders (fulfil and failure) use the same
+	formula, so paths longer than MAX_HOPS still report the first MAX_HOPS hops"""
+	out = []
+	seen = {}
+	for fn in ('lightning::ln::onion_utils::fuzzy_onion_utils::decode_fulfill_attribution_data', 'lightning::ln::onion_utils::process_onion_failure_inner'):
+		short = fn.rsplit('::', 1)[-1]
+		found = False
+		for n in F.family(fn):
+			fu = F.func(n)
+			ex = Expr(fu)
+			for b, ci in fu.calls():
+				if not norm(ci.get('f') or '').endswith('AttributionData::verify'):
+					continue
+				found = True
+				e = ex.of_operand(ci['args'][-1])
+				terms, k = linear(e)
+				pos = [v for v, c in terms.items() if c == 1]
+				neg = [v for v, c in terms.items() if c == -1]
+				ok = k == -1 and len(terms) == 2 and len(pos) == 1 and len(neg) == 1 and bool(re.match(r'^min\(len\(.*hops\),MAX_HOPS\(=\d+\)\)$|^min\(MAX_HOPS\(=\d+\),len\(.*hops\)\)$', pos[0])) and 'enumerate' in neg[0]
+				seen[short] = ok
+				out.append(Result('14.l', ok, ('ok:' if ok else 'position:') + 'attribution-position@' + short, '%s verifies attribution data at position `%s` (expected min(path length, MAX_HOPS) - hop index - 1)' % (short, expr_str(e)[:110] if not ok else 'min(len(hops), MAX_HOPS) - idx - 1'), 1, where=None if ok else F.where(n, fu.line_of(b))))
+		if not found:
+			out.append(Result('14.l', False, 'anchor:attribution-verify@' + short, '%s no longer calls AttributionData::verify' % short))
+	return out
+
+def r14m(F):
+	"""an update parked in the holding cell is replayed with everything it was parked with: in FundedChannel::free_holding_cell_htlcs every
+	field of every HTLCUpdateAwaitingACK variant (derived from the type) is read in the arm that replays it - a claim replayed without its
+	attribution_data still settles, but the sender is told no hop's hold time"""
+	return _held_update_fields(F, '14.m')
+
+def _held_update_fields(F, rule):
+	a = F.adt('lightning::ln::channel::HTLCUpdateAwaitingACK')
+	fam = set(F.family('lightning::ln::channel::FundedChannel::free_holding_cell_htlcs'))
+	out = []
+	n = 0
+	for rec in F.adts[a]:
+		var, fld = rec[0], rec[1]
+		if fld == '-':
+			continue
+		n += 1
+		acc = [x for x in F.fieldacc.get('%s::%s.%s' % (a, var, fld), []) if x[0] in fam]
+		ok = bool(acc)
+		out.append(Result(rule, ok, ('ok:' if ok else 'dropped:') + 'held-%s.%s-replayed' % (var, fld), 'free_holding_cell_htlcs %s field `%s` of a held %s' % ('reads' if ok else 'never reads', fld, var), 1, where=None if ok else F.where(F.fn('lightning::ln::channel::FundedChannel::free_holding_cell_htlcs'))))
+	if n < 15:
+		out.append(Result(rule, False, 'floor:held-update-fields', 'only %d fields of HTLCUpdateAwaitingACK found (expected >= 15)' % n))
+	return out
+
 RULES = [
 	('14.j', 'persisted failures keep their attribution data (writer getters of HTLCFailReasonRepr select on the variant only)', r14j),
 	('14.i', 'failure parsing: the channel_update length / body offsets follow the code-specific debug field', r14i),
@@ -486,4 +537,7 @@ RULES = [
 	('14.k', 'fulfil attribution data through a phantom node: phantom layer innermost, real node\'s layer outermost', r14k),
 	('14.w', 'no length / count is added to or multiplied in an 8/16-bit type and widened afterwards (wrap-around at the top of the range; rules/provenance.py)', lambda F: provenance.narrow_for_property(F, 'C14', '14.w')),
 	('14.z', 'named protocol / policy constants in this property\'s files have their reviewed values (rules/provenance.py)', lambda F: provenance.consts_for_property(F, 'C14', '14.z')),
+	('14.l', 'attribution data is verified at min(path length, MAX_HOPS) - index - 1 in both decoders', r14l),
+	('14.m', 'held updates are replayed with all their fields (attribution data of a held claim included)', r14m),
+	('14.x', 'range indexing of fixed-size buffers stays in bounds wherever the end is statically bounded (a wire length byte can be 255; rules/provenance.py)', lambda F: provenance.arrays_for_property(F, 'C14', '14.x')),
 ]
